@@ -35,8 +35,9 @@ TRUSTED = ['harness/props/c20.py (generator, canonicalisation)', 'lean/OpenHTF/D
 CONST_PREFIXES = ['c20.']
 
 KEYS = ['alpha', 'beta', 'gamma', 'reset', 'Upper']
-POOL = [7, 'txt', 2.5, None, [1, 2]]
-YAML = ['7', 'txt', '2.5', 'null', '[1, 2]']
+# (the last value contains '=': a flag is split at the FIRST '=' of key=value)
+POOL = [7, 'txt', 2.5, None, [1, 2], 'k=v=w']
+YAML = ['7', 'txt', '2.5', 'null', '[1, 2]', 'k=v=w']
 
 
 def _vidx(v):
@@ -258,7 +259,7 @@ ALPHABET = [
     ['D', 0, None, False], ['D', 0, 0, True], ['D', 3, 1, False], ['D', 4, 0, False], ['D', 1, None, False],
     ['L', True, False, [[0, 1]], 'dict'], ['L', False, False, [[0, 2]], 'kwargs'], ['L', True, True, [[2, 3]], 'file'],
     ['L', True, False, [[1, 4], [3, 0]], 'dict'],
-    ['F', [[0, 3]]], ['F', [[1, 2], [0, 4]]],
+    ['F', [[0, 3]]], ['F', [[1, 2], [0, 4]]], ['F', [[0, 5]]],
     ['R'], ['A', 0, 1],
     ['S', False, [[0, 4]], [['L', True, False, [[1, 0]], 'dict']], 'direct'],
     ['S', True, [], [['L', True, False, [[0, 2]], 'kwargs'], ['D', 2, 2, False]], 'direct'],
@@ -278,13 +279,13 @@ CORPUS = [
 
 def _rand_op(rng, depth=0):
   r = rng.random()
-  kv = lambda n: [[k, rng.randrange(5)] for k in rng.sample(range(5), n)]
+  kv = lambda n: [[k, rng.randrange(6)] for k in rng.sample(range(5), n)]
   if r < 0.25:
     return ['D', rng.choice([0, 0, 1, 2, 3, 4]), rng.choice([None, None] + list(range(5))), rng.random() < 0.3]
   if r < 0.55:
     return ['L', rng.random() < 0.6, rng.random() < 0.3, kv(rng.randint(0, 3)), rng.choice(['dict', 'kwargs', 'file'])]
   if r < 0.68:
-    return ['F', [[rng.randrange(5), rng.randrange(5)] for _ in range(rng.randint(1, 3))]]
+    return ['F', [[rng.randrange(5), rng.randrange(6)] for _ in range(rng.randint(1, 3))]]
   if r < 0.76:
     return ['R']
   if r < 0.82:
